@@ -103,7 +103,7 @@ type applyRule struct {
 }
 
 func (r *applyRule) Inline(fn *ssa.Function) bool { return PkgOf(fn) == PkgState }
-func (r *applyRule) PredOK(k string) bool          { return true }
+func (r *applyRule) PredOK(k string) bool         { return true }
 
 // sigma: [0] store mutations (0..2) [1] lastOffset stores (0..2) [2] offset value ok (y/n/-)
 // [3] lock held when storing (y/n/-) [4] result class (n nil / e error / ?)
